@@ -676,6 +676,15 @@ static void check_desc(FILE *o, const asn_TYPE_descriptor_t *td, int depth, int 
             if((int)i + s->tag2el[i].toff_first < 0 || (int)i + s->tag2el[i].toff_last >= (int)s->tag2el_count
                + 0)
                 DERR("%s: tag2el toff out of range", td->name);
+            else {
+                /* toff_first / toff_last delimit the run of entries that carry exactly this tag (class and number) */
+                unsigned lo = i, hi = i;
+                while(lo > 0 && tag_cmp(s->tag2el[lo - 1].el_tag, s->tag2el[i].el_tag) == 0) lo--;
+                while(hi + 1 < s->tag2el_count && tag_cmp(s->tag2el[hi + 1].el_tag, s->tag2el[i].el_tag) == 0) hi++;
+                if((int)i + s->tag2el[i].toff_first != (int)lo || (int)i + s->tag2el[i].toff_last != (int)hi)
+                    DERR("%s: tag2el entry %u (member %u): toff_first/toff_last %d/%d do not delimit the entries with the same tag (%u..%u)",
+                         td->name, i, s->tag2el[i].el_no, s->tag2el[i].toff_first, s->tag2el[i].toff_last, lo, hi);
+            }
         }
         for(i = 0; i < s->roms_count + s->aoms_count; i++) {
             if(!s->oms || s->oms[i] < 0 || (unsigned)s->oms[i] >= td->elements_count)
